@@ -54,54 +54,3 @@ Proof.
     solve_reps.
 Qed.
 
-(* ------------------------------------------------------------------ horizontal axis *)
-Definition haxis (l r w ml mr : oq) (pl pr bl br pos : Q) : axis :=
-  mk_axis l r w ml mr (pl + pr + bl + br) pos.
-(* box.style.parent_style: None for the root, else a style with a direction *)
-Definition parent_style (root : bool) (dir : string) : val :=
-  if root then VNone else VObj [("direction", VStr dir)].
-Definition is_ltr (root : bool) (dir : string) : bool := root || String.eqb dir "ltr".
-Definition hbox (root : bool) (dir : string) (l r w ml mr : oq) (pl pr bl br pos : Q) : val :=
-  VObj [("style", VObj [("parent_style", parent_style root dir)]);
-        ("left", vo l); ("right", vo r); ("width", vo w); ("margin_left", vo ml); ("margin_right", vo mr);
-        ("padding_left", VNum pl); ("padding_right", VNum pr); ("border_left_width", VNum bl);
-        ("border_right_width", VNum br); ("position_x", VNum pos)].
-Definition hbox_rep (v : val) (b : axis) : Prop :=
-  rep (fieldv v "left") (a_start b) /\ rep (fieldv v "right") (a_end b) /\ rep (fieldv v "width") (a_size b) /\
-  rep (fieldv v "margin_left") (a_ms b) /\ rep (fieldv v "margin_right") (a_me b) /\
-  repq (fieldv v "position_x") (a_pos b).
-Definition width_post (r : ares) (rho : env) (res : option val) : Prop :=
-  hbox_rep (lookup "box" rho) (fst r) /\
-  exists tb tx, res = Some (VList [VBool tb; VNum tx]) /\ tb = fst (snd r) /\ tx == snd (snd r).
-
-(* shrink_to_fit(context, box, available) is an oracle: some function of the available width *)
-Definition stf_oracle (O : qops) (stf : Q -> Q) : Prop :=
-  (forall ctx bx a, ocall O "shrink_to_fit" [ctx; bx; VNum a] = VNum (stf a)) /\
-  (forall a a', a == a' -> stf a == stf a').
-
-Ltac solve_hreps Hp :=
-  unfold width_post, hbox_rep, rep, repq, fieldv; cbn;
-  repeat split; try reflexivity; try (eexists; eexists; repeat split; try reflexivity);
-  try (apply Hp); try ring; try field.
-
-Lemma gen_absolute_width O (HO : ops_ok O) stf (HS : stf_oracle O stf)
-      root dir l r w ml mr pl pr bl br pos cbx cby cbw cbh :
-  run O absolute_width_body
-    [("box", hbox root dir l r w ml mr pl pr bl br pos); ("context", VObj []); ("cb_x", VNum cbx); ("cb_y", cby);
-     ("cb_width", VNum cbw); ("cb_height", cbh)]
-    (width_post (abs_width (is_ltr root dir) stf cbx cbw (haxis l r w ml mr pl pr bl br pos))) (fun _ => False).
-Proof.
-  destruct HS as [Hc Hp].
-  unfold run, absolute_width_body, hbox, haxis, abs_width, is_ltr, parent_style.
-  destruct root; [|destruct (String.eqb dir "ltr") eqn:Edir];
-  destruct l as [l|], r as [r|], w as [w|], ml as [ml|], mr as [mr|];
-    lazy -[qadd qsub qmul qdiv qmax qmin qleb qeqb ocall width_post Qplus Qminus Qmult Qdiv Qeq_bool Qle_bool String.eqb];
-    rewrite ?Edir; 
-    lazy -[qadd qsub qmul qdiv qmax qmin qleb qeqb ocall width_post Qplus Qminus Qmult Qdiv Qeq_bool Qle_bool String.eqb];
-    rewrite ?Hc;
-    lazy -[qadd qsub qmul qdiv qmax qmin qleb qeqb ocall width_post Qplus Qminus Qmult Qdiv Qeq_bool Qle_bool String.eqb];
-    split_paths O; unseal HO;
-    try (change (Qeq_bool 2 0) with false; cbv iota);
-    try (match goal with H : Qeq_bool 2 0 = true |- _ => vm_compute in H; discriminate H end);
-    solve_hreps Hp.
-Qed.
